@@ -44,13 +44,14 @@ def boundaries(buf: bytes):
     return out, i == n
 
 
-def fresh_pair(kind='ser'):
+def fresh_pair(kind='ser', hist=()):
     from . import interp_explore as ix
+    declared = ix.CLAIM_SETS[hist[0].split(':', 1)[1]] if hist and hist[0].startswith('@claims:') else ix.DECLARED_CLAIMS
     from proof_generation.claim import Claim
     from proof_generation.interpreter import ExecutionPhase
     if kind == 'ser':
         bufs = [ix.Buf(), ix.Buf(), ix.Buf()]
-        it = ix.SerializingInterpreter(ExecutionPhase.Gamma, bufs[0], [Claim(c) for c in ix.DECLARED_CLAIMS], bufs[1], bufs[2])
+        it = ix.SerializingInterpreter(ExecutionPhase.Gamma, bufs[0], [Claim(c) for c in declared], bufs[1], bufs[2])
     else:
         from proof_generation.pretty_printing_interpreter import PrettyPrintingInterpreter
 
@@ -58,7 +59,7 @@ def fresh_pair(kind='ser'):
             def close(self):
                 pass
         bufs = [SBuf(), SBuf(), SBuf()]
-        it = PrettyPrintingInterpreter(ExecutionPhase.Gamma, bufs[0], [Claim(c) for c in ix.DECLARED_CLAIMS], bufs[1], bufs[2])
+        it = PrettyPrintingInterpreter(ExecutionPhase.Gamma, bufs[0], [Claim(c) for c in declared], bufs[1], bufs[2])
     return it, bufs
 
 
@@ -99,7 +100,7 @@ def roundtrip(sim, hist):
     g, c, p = sim.bytes3()
     ph = sim.phase_no()
     last = hist[-1].split()[0] if hist else ''
-    it2, bufs2 = fresh_pair('ser')
+    it2, bufs2 = fresh_pair('ser', hist)
     try:
         deserialize_all(it2, g, c, p, ph)
     except Exception as ex:  # noqa: BLE001
@@ -133,15 +134,16 @@ def pretty_compare(hist):
     g, c, p = sim.bytes3()
     ph = sim.phase_no()
     # original calls on a pretty printer
-    it_p, bufs_p = fresh_pair('pretty')
+    it_p, bufs_p = fresh_pair('pretty', hist)
     sp = ix.Sim.__new__(ix.Sim)
     sp.it, sp.ghosts, sp.bufs, sp.published_claims = it_p, [], bufs_p, 0
     try:
         for name in hist:
-            ix.EVENTS[name](sp)
+            if not name.startswith('@claims:'):
+                ix.EVENTS[name](sp)
     except Exception as ex:  # noqa: BLE001
         return [({'kind': 'pretty_original_raises', 'exc': common.exc_family(ex)}, f'pretty printing the calls {list(hist)} raised {type(ex).__name__}: {str(ex)[:100]}')]
-    it_d, bufs_d = fresh_pair('pretty')
+    it_d, bufs_d = fresh_pair('pretty', hist)
     try:
         deserialize_all(it_d, g, c, p, ph)
     except Exception as ex:  # noqa: BLE001
@@ -168,7 +170,7 @@ def error_side(sim, hist):
         return viols, 0
 
     def run(mut):
-        it2, _ = fresh_pair('ser')
+        it2, _ = fresh_pair('ser', hist)
         b = list(bufs)
         b[ph] = mut
         deserialize_all(it2, b[0], b[1], b[2], ph)
@@ -307,6 +309,11 @@ def main(argv=None) -> int:
     seed = ('pattern (phi0 -> phi0)', 'publish', 'pattern (a -> b)', 'publish', 'next phase',
             'pattern (∃ x0 . x0)', 'publish', 'pattern (phi0 -> phi0)', 'publish', 'next phase')
     f3 = run_bfs(chk, raw, 4 if thorough else 3, (5, 4, 14), agg, 'proof-phase-seed/raw', seeds=(seed,))
+    # a theory-less module whose single claim is provable in one step and is not an axiom: after its proof is published the
+    # memories must still agree (then save and load something)
+    one_claim = ('@claims:prop1', 'next phase', 'metavar 0', 'metavar 1', 'metavar 0', 'implies', 'implies', 'publish', 'next phase')
+    run_bfs(chk, ['prop1', 'prop2', 'publish', 'save', 'load 0', 'load 1', 'pop'], 5 if thorough else 4, (5, 4, 14), agg,
+            'one-provable-claim', seeds=(one_claim,))
     # two saved terms that PRINT alike (constraints are not printed) and are loaded one after the other: labels passed to
     # save/load are built from the printed form, as the toolkit's own callers do
     twins = ('metavar 0', 'save', 'pop', 'metavar 0 e_fresh x0', 'save', 'pop')
